@@ -67,7 +67,10 @@ type c09Spec struct {
 	// SAMsgs: the standalone stream is not silent: the server has this many log notifications for it (SAIDs: its
 	// events carry ids). The i-th body of that stream is cut as SACuts[i] (never more cuts than MaxRetries); what
 	// has not been served completely follows on the stream the client opens next, the last one stays open.
-	SAMsgs int      `json:"sa_msgs,omitempty"`
+	// LongOutage: a generous budget (MaxRetries 64) and an outage of 58..62 consecutive transient failures, after
+	// which the server is back and serves the rest: the call completes (some two hours of back-off later)
+	LongOutage bool     `json:"long_outage,omitempty"`
+	SAMsgs     int      `json:"sa_msgs,omitempty"`
 	SAIDs  bool     `json:"sa_ids,omitempty"`
 	SACuts []c09Cut `json:"sa_cuts,omitempty"`
 }
@@ -125,6 +128,16 @@ func genC09(r *vh.Rand) c09Spec {
 		}
 	}
 	s.InitCut = r.Chance(1, 6)
+	if r.Chance(1, 40) {
+		s.LongOutage, s.MaxRetries, s.IDs, s.PausesS = true, 64, true, nil
+		s.Reconnects, s.Cuts = nil, nil
+		for i, n := 0, r.Range(58, 62); i < n; i++ {
+			s.Reconnects = append(s.Reconnects, r.Choose("503", "neterr", "timeout", "502"))
+		}
+		s.Reconnects = append(s.Reconnects, "ok")
+		s.Cuts = append(s.Cuts, c09Cut{At: -1})
+		s.InitCut = false
+	}
 	s.NoGET = r.Chance(1, 5)
 	s.Modern = r.Chance(1, 5)
 	if s.Standalone && r.Chance(2, 3) {
@@ -540,7 +553,7 @@ func runC09(c *vh.Case, spec c09Spec) {
 	hung := false
 	select {
 	case out = <-done:
-	case <-time.After(30 * time.Minute):
+	case <-time.After(map[bool]time.Duration{false: 30 * time.Minute, true: 3 * time.Hour}[spec.LongOutage]):
 		hung = true
 	}
 	log.Add("call-returned", "hung", hung, "err", errText(out.err), "text", out.text, "t", log.Now().String())
